@@ -1134,3 +1134,134 @@ def OLDATTR(m, node):
 
 
 _ENV.update(OLDATTR=OLDATTR)
+
+
+# ---- StrategyDict.__setitem__ with a tuple of names (what the `strategy("a", "b")` decorator does)
+def _sdt_state(m):
+    o = m.locals["self"]
+    return _sd_state(m, o)
+
+
+@_spec
+def SDT_L1_SHAPE(m, node):
+    it, kt = m.hidden["_it1"], m.params0["key"]
+    return z3.And(m.locals["keys"] == kt, m.heap[(it.id, "len")] == TLEN(kt), z3.Not(m.heap[(it.id, "inf")]))
+
+
+@_spec
+def SDT_L1_MAP(m, node):
+    """only names of the tuple have been removed so far, every name processed is gone, the others keep their values"""
+    KDd, KDv, IDd, IDv, SDd, SDv, ATd, ATv, HD, DV = _sdt_state(m)
+    kt = m.params0["key"]
+    p = m.heap[(m.hidden["_it1"].id, "pos")]
+    k, i = _kk("m"), z3.Int("i!sdt")
+    KDd0, KDv0, SDv0 = _og(m, "KDd"), _og(m, "KDv"), _og(m, "SDv")
+    return z3.And(z3.ForAll([k], z3.Implies(KDd[k], z3.And(KDd0[k], SDv[KDv[k]] == SDv0[KDv0[k]]))),
+                  z3.ForAll([k], z3.Implies(z3.And(KDd0[k], z3.Not(KDd[k])), IN(k, kt))),
+                  z3.ForAll([i], z3.Implies(z3.And(i >= 0, i < p), z3.Not(KDd[TAT(kt, i)]))))
+
+
+@_spec
+def SDT_L1_ATTRS(m, node):
+    KDd, KDv, IDd, IDv, SDd, SDv, ATd, ATv, HD, DV = _sdt_state(m)
+    k = _kk("a")
+    KDd0, ATd0, ATv0 = _og(m, "KDd"), _og(m, "ATd"), _og(m, "ATv")
+    return z3.ForAll([k], z3.And(ATd[k] == z3.And(ATd0[k], z3.Not(z3.And(KDd0[k], z3.Not(KDd[k])))), z3.Implies(ATd[k], ATv[k] == ATv0[k])))
+
+
+@_spec
+def SDT_L1_DEFAULT(m, node):
+    KDd, KDv, IDd, IDv, SDd, SDv, ATd, ATv, HD, DV = _sdt_state(m)
+    HD0, DV0 = _og(m, "HD"), _og(m, "DV")
+    return z3.And(HD == z3.And(HD0, IDd[DV0]), z3.Implies(HD, DV == DV0))
+
+
+def _sdt_l2_pre(m):
+    _sd_snapshot(m, m.locals["self"], m.ghost, "1")
+
+
+@_spec
+def SDT_L2_SHAPE(m, node):
+    it, kt = m.hidden["_it2"], m.params0["key"]
+    cur = _sdt_state(m)
+    same = [cur[i] == m.ghost[_SD_NAMES[i] + "1"] for i in (0, 1, 2, 3, 4, 5, 8, 9)]
+    return z3.And(m.locals["keys"] == kt, m.heap[(it.id, "len")] == TLEN(kt), z3.Not(m.heap[(it.id, "inf")]), *same)
+
+
+@_spec
+def SDT_L2_ATTRS(m, node):
+    KDd, KDv, IDd, IDv, SDd, SDv, ATd, ATv, HD, DV = _sdt_state(m)
+    kt, value = m.params0["key"], m.params0["value"]
+    q = m.heap[(m.hidden["_it2"].id, "pos")]
+    k, i = _kk("a"), z3.Int("i!sdt2")
+    ATd1, ATv1 = m.ghost["ATd1"], m.ghost["ATv1"]
+    return z3.And(z3.ForAll([i], z3.Implies(z3.And(i >= 0, i < q), z3.And(ATd[TAT(kt, i)], ATv[TAT(kt, i)] == value))),
+                  z3.ForAll([k], z3.Or(z3.And(ATd[k] == ATd1[k], ATv[k] == ATv1[k]), z3.And(IN(k, kt), ATd[k], ATv[k] == value))))
+
+
+@_spec
+def SDT_ATTRS(m, node):
+    KDd, KDv, IDd, IDv, SDd, SDv, ATd, ATv, HD, DV = _sdt_state(m)
+    kt, value = m.params0["key"], m.params0["value"]
+    k = _kk("a")
+    return z3.ForAll([k], z3.If(IN(k, kt), z3.And(ATd[k], ATv[k] == value), z3.And(ATd[k] == _og(m, "ATd")[k], z3.Implies(ATd[k], ATv[k] == _og(m, "ATv")[k]))))
+
+
+@_spec
+def SDT_DEFAULT(m, node):
+    """the default is the old one unless there was none or all its names are among the names assigned now: then it is the value stored now"""
+    KDd, KDv, IDd, IDv, SDd, SDv, ATd, ATv, HD, DV = _sdt_state(m)
+    kt, value = m.params0["key"], m.params0["value"]
+    HD0, DV0, KDd0, KDv0, SDv0 = _og(m, "HD"), _og(m, "DV"), _og(m, "KDd"), _og(m, "KDv"), _og(m, "SDv")
+    k = _kk("d")
+    named_outside = z3.And(KDd0[k], SDv0[KDv0[k]] == DV0, z3.Not(IN(k, kt)))
+    return z3.And(HD, z3.Or(DV == value, z3.And(HD0, DV == DV0)), z3.Implies(z3.Not(HD0), DV == value),
+                  z3.ForAll([k], z3.Implies(z3.And(HD0, named_outside), DV == DV0)),
+                  z3.Implies(z3.And(HD0, DV != DV0), z3.ForAll([k], z3.Implies(z3.And(KDd0[k], SDv0[KDv0[k]] == DV0), IN(k, kt)))))
+
+
+_ENV.update(SDT_L1_SHAPE=SDT_L1_SHAPE, SDT_L1_MAP=SDT_L1_MAP, SDT_L1_ATTRS=SDT_L1_ATTRS, SDT_L1_DEFAULT=SDT_L1_DEFAULT, SDT_L2_SHAPE=SDT_L2_SHAPE,
+            SDT_L2_ATTRS=SDT_L2_ATTRS, SDT_ATTRS=SDT_ATTRS, SDT_DEFAULT=SDT_DEFAULT)
+
+
+def _mkd_setitem_super2(m, self, args, kwargs):
+    keys, value = args
+    if sym.is_z3(keys) and keys.sort() == T:
+        return _via_contract(setitem, "key-tuple", ["self", "key", "value"], "MultiKeyDict.__setitem__")(m, self, (keys, value), {})
+    return _mkd_setitem_super(m, self, args, kwargs)
+
+
+def _sdinv_parts(m, o):
+    KDd, KDv, IDd, IDv, SDd, SDv, ATd, ATv, HD, DV = _sd_state(m, o)
+    k = _kk("i")
+    return [WFA(KDd, KDv, IDd, IDv, SDd, SDv), z3.ForAll([k], z3.Implies(KDd[k], z3.And(ATd[k], ATv[k] == SDv[KDv[k]]))), z3.Implies(HD, IDd[DV]), z3.Not(IDd[CLASS_DEFAULT])]
+
+
+def _sp(i):
+    @_spec
+    def f(m, node):
+        return _sdinv_parts(m, m.eval(node.args[0]))[i]
+    return f
+
+
+_ENV.update(SDINV_WF=_sp(0), SDINV_ATTR=_sp(1), SDINV_DEF=_sp(2), SDINV_CLS=_sp(3))
+sd_setitem_t = _sd_mk(Contract(
+    name="StrategyDict.__setitem__(names)", qual="audiolazy/lazy_core.py::StrategyDict.__setitem__", kind="function", props=["C15"],
+    modes={"tuple-of-names": Mode(params=dict(self=sd_obj, key=_key_tuple_param, value=lambda m, n: z3.Const("value", V)),
+                                  requires=["sdinv(self)", "value != CLASS_DEFAULT_V()", "TLEN(key) >= 1"])},
+    loops={1: Loop(inv=[("C:shape", "SDT_L1_SHAPE()"), ("C:names-are-attributes;default-is-stored", "sdinv(self)"), ("C:only-names-of-the-tuple-removed", "SDT_L1_MAP()"),
+                        ("C:attributes-follow-the-removals", "SDT_L1_ATTRS()"), ("C:default-kept-while-it-has-a-name", "SDT_L1_DEFAULT()")]),
+           2: Loop(pre=[_sdt_l2_pre], inv=[("C:shape-and-maps-untouched", "SDT_L2_SHAPE()"), ("C:attributes-set-so-far", "SDT_L2_ATTRS()")])},
+    ensures=[("S:every-name-of-the-tuple-maps-to-the-value;other-names-keep-their-values", "SETT_MAP()"),
+             ("S:each-value-owns-exactly-one-tuple-listing-exactly-its-keys", "SET_GROUPS()"),
+             ("S:every-name-of-the-tuple-is-an-attribute-equal-to-the-value;other-attributes-stay", "SDT_ATTRS()"),
+             ("S:default-kept-unless-it-lost-all-its-names-or-there-was-none;then-the-value-stored-now", "SDT_DEFAULT()"),
+             ("S:the-three-maps-stay-coherent", "SDINV_WF(self)"), ("S:names-are-attributes-equal-to-the-items", "SDINV_ATTR(self)"),
+             ("S:default-is-a-stored-strategy", "SDINV_DEF(self)"), ("C:the-class-default-is-not-stored", "SDINV_CLS(self)")],
+    replay="oracles.bounded_adapter:c15",
+    stated=["StrategyDict[names] = f (what the strategy decorator does): every name maps to f and is an attribute equal to f, other names keep value and attribute, "
+            "the default is kept unless all its names were re-assigned (or there was none): then f becomes the default"]))
+sd_setitem_t.delitem_hook = _sd_delitem_hook
+sd_setitem_t.callees[("super:StrategyDict", "__setitem__")] = _mkd_setitem_super2
+sd_setitem_t.loop_havoc_ghost = False
+sd_setitem_t.ghost_const = sd_setitem_t.ghost_const | set(n + "1" for n in _SD_NAMES)
